@@ -18,10 +18,10 @@ What is true and proved here:
 * `stmt_order_independent_deferred_partial`, `stmt_order_independent_deferred_number`: an instruction statement deferred by
   an unknown or a Deferred name: if the re-run and the fresh assembly both complete, same instruction — no condition at
   number positions, operands free of Deferred names at the register / address positions.
-What is FALSE (finding K6, `acceptance_differs_without_overflow`): that acceptance can differ only through an arithmetic
-overflow.  `.global x; ADDS r1, r2, -(x - r0); .const x, 0` assembles (`11 18`, `ADDS r1, r2, r0`): with `x` Deferred the
-operand is swapped to `r0 - x`, which is `r0` once `x = 0`.  With `.const x, 0` ABOVE the statement `0 - r0` becomes `-r0`
-first and `-(-r0)` is left as it is (the simplifier has no rule for a double negation) — refused.  No overflow is involved.
+History (finding K6): before the rule `-(-v) ↦ v` acceptance could differ WITHOUT any overflow — `.global x; ADDS r1, r2,
+-(x - r0); .const x, 0` assembled (`11 18`): with `x` Deferred the operand was swapped to `r0 - x`, which is `r0` once
+`x = 0`; with `.const x, 0` ABOVE the statement `0 - r0` became `-r0` first and `-(-r0)` was left as it was — refused.  The
+model follows the repair (`neutralize_raw` strips double negations); both orders agree now (`deferred_below6/above6`).
 -/
 namespace Trion.Asm
 open Trion
@@ -176,37 +176,34 @@ example :
       .ok (.err (.overflow .add) (.bin .sub (.bin .add (.const 5) (.const 9223372036854775807)) (.const 9223372036854775807))) :=
   ⟨rfl, rfl, rfl⟩
 
-/-! ### K6: acceptance can differ without any overflow -/
+/-! ### K6 (repaired): acceptance used to differ without any overflow -/
 
 /-- the operand `-(x - r0)` -/
 def exNegNeg : Arg := .neg (.bin .sub (.ident [120]) (.ident [114, 48]))
 
-/-- C08 FINDING K6 (witness)  `ADDS r1, r2, -(x - r0)` with `x` declared `.global` (Deferred) at the statement and `x = 0`
-later: the first attempt is deferred with the operand simplified to `r0 - x`, the re-run completes with `ADDS r1, r2, r0`;
-with `x = 0` known at the statement the fresh assembly ends with `-(-r0)` and is refused (`ArgumentType`, no overflow).
-Replayed on the real assembler (/repo 437c720): `11 18` / "invalid argument #3 for ADDS (… got negation)". -/
-theorem acceptance_differs_without_overflow :
+/-- K6, before the rule `-(-v) ↦ v`: `ADDS r1, r2, -(x - r0)` with `x` declared `.global` (Deferred) at the statement and `x = 0`
+later was deferred with the operand simplified to `r0 - x`, and the re-run completed with `ADDS r1, r2, r0` (`11 18`); with
+`x = 0` known at the statement the fresh assembly ended with `-(-r0)` and was refused (`ArgumentType`, no overflow involved).
+With the rule both routes end in `r0`. -/
+example :
     (∃ fs1, Front.build 0 (bytesOf "ADDS") [.ident [114, 49], .ident [114, 50], exNegNeg] (frontEval [([120], none)]) true =
         .deferred [120] fs1 ∧
       fs1.args = [.ident [114, 49], .ident [114, 50], .bin .sub (.ident [114, 48]) (.ident [120])] ∧
       ∃ fs2, Front.assemble fs1 (frontEval [([120], some 0)]) false = (fs2, .completed) ∧
         fs2.instr = .add true 1 2 (.reg 0)) ∧
-    (∃ st, Front.build 0 (bytesOf "ADDS") [.ident [114, 49], .ident [114, 50], exNegNeg] (frontEval [([120], some 0)]) true =
-      .error (.argType 2 [.const, .ident] .neg) st) ∧
-    Table.Sub [([120], none)] [([120], some 0)] :=
-  ⟨⟨_, rfl, rfl, _, rfl, rfl⟩, ⟨_, rfl⟩, fun n v h => by
-    simp only [Table.find] at h
-    split at h <;> simp at h⟩
+    Front.build 0 (bytesOf "ADDS") [.ident [114, 49], .ident [114, 50], exNegNeg] (frontEval [([120], some 0)]) true =
+      .completed (.add true 1 2 (.reg 0)) :=
+  ⟨⟨_, rfl, rfl, _, rfl, rfl⟩, rfl⟩
 
 def exBelow6 : Bytes := bytesOf ".global x;\n.addr 0x20000000;\nADDS r1, r2, -(x - r0);\n.const x, 0;\n"
 def exAbove6 : Bytes := bytesOf ".global x;\n.addr 0x20000000;\n.const x, 0;\nADDS r1, r2, -(x - r0);\n"
 
-/-- K6 on the whole-pipeline model: declared, used, then defined — assembles to `11 18` -/
+/-- K6 on the whole-pipeline model: declared, used, then defined — `11 18` -/
 theorem deferred_below6 : exSummary (run (exOrdFs exBelow6) [109]) = some (true, 0, [(536870912, [17, 24])]) := by
   decide +kernel
 
-/-- K6: declared, defined, then used — refused (twice), placeholder left -/
-theorem deferred_above6 : exSummary (run (exOrdFs exAbove6) [109]) = some (false, 2, [(536870912, [190, 190])]) := by
+/-- K6: declared, defined, then used — the same image (before the repair: refused twice, placeholder left) -/
+theorem deferred_above6 : exSummary (run (exOrdFs exAbove6) [109]) = some (true, 0, [(536870912, [17, 24])]) := by
   decide +kernel
 
 end Trion.Asm
